@@ -394,24 +394,36 @@ def boundaries(tx_dl: int) -> list:
     return sorted(x for x in out if 1 <= x <= 4095)
 
 
+PCI_LIKE = bytes([0x00, 0x10, 0x21, 0x30, 0xAA, 0xCC, 0xFF, 0x02, 0x22, 0x2F, 0x20, 0x3F])
+
+
 def _strategies():
     from hypothesis import strategies as st
 
-    byte = st.one_of(st.sampled_from([0x00, 0x10, 0x21, 0x30, 0xAA, 0xCC, 0xFF, 0x02]), st.integers(0, 255))
-
-    def length(tx_dl):
-        return st.one_of(st.sampled_from(boundaries(tx_dl)), st.sampled_from(boundaries(tx_dl)[:24]),
-                         st.integers(1, 4 * tx_dl), st.integers(1, 4 * tx_dl), st.integers(1, 400),
-                         st.integers(1, 4095))
+    byte = st.one_of(st.sampled_from(list(PCI_LIKE[:8])), st.integers(0, 255))
+    lengths = {}
+    for tx_dl in M.TX_DLS:
+        bnd = boundaries(tx_dl)
+        near = [x for x in bnd if x <= (tx_dl - 2) + (tx_dl - 1) * 6 + 1]
+        lengths[tx_dl] = st.one_of(st.sampled_from(near), st.sampled_from(near), st.sampled_from(near),
+                                   st.sampled_from(bnd), st.integers(1, 4 * tx_dl), st.integers(1, 4 * tx_dl),
+                                   st.integers(1, 4 * tx_dl), st.integers(1, 400),
+                                   st.one_of(st.integers(1, 400), st.integers(1, 4095)))
 
     @st.composite
     def payload(draw, tx_dl, pad):
-        n = draw(length(tx_dl))
-        padhex = f"{(M.FD_DEFAULT_PAD if pad is None else pad):02x}"
+        n = draw(lengths[tx_dl])
+        padval = M.FD_DEFAULT_PAD if pad is None else pad
+        padhex = f"{padval:02x}"
         if n <= 24:
-            body = bytearray(draw(st.lists(byte, min_size=n, max_size=n)))
-            if draw(st.integers(0, 3)) == 0:
-                body[-1] = int(padhex, 16)
+            body = bytearray(draw(st.binary(min_size=n, max_size=n)))
+            flavour = draw(st.integers(0, 5))
+            if flavour == 0:
+                body[-1] = padval
+            elif flavour == 1:
+                body = bytearray(PCI_LIKE[(body[0] + i) % len(PCI_LIKE)] for i in range(n))
+            elif flavour == 2:
+                body = bytearray([padval]) * n
             return ["hex", bytes(body).hex()]
         tail = draw(st.sampled_from(["", "", padhex * 3, padhex, "00", "2130"]))
         return ["pat", n, draw(st.integers(0, 255)), draw(st.sampled_from([1, 1, 3, 7, 0, 255])), tail]
@@ -428,10 +440,10 @@ def _strategies():
             nt = draw(st.integers(1, 4))
             streams.append({"id": cid, "tx_dl": tx_dl, "pad": pad, "full": full,
                             "telegrams": [draw(payload(tx_dl, pad)) for _ in range(nt)]})
-        bursts = draw(st.lists(st.tuples(st.integers(0, nids - 1), st.integers(1, 4)), max_size=40))
+        bursts = draw(st.lists(st.integers(0, 4 * nids - 1), max_size=40))
         order = []
-        for k, n in bursts:
-            order += [k] * n
+        for v in bursts:
+            order += [v // 4] * (1 + v % 4)
         unrelated = [u for u in UNRELATED_POOL if u not in ids]
         fc = st.builds(lambda cid, flag, bs, stm, p: ["x", cid, M.flow_control(flag, bs, stm, p).hex()],
                        st.sampled_from(ids), st.sampled_from([0, 0, 1, 2]), st.sampled_from([0, 8, 255]),
@@ -644,7 +656,7 @@ def run_shard(spec, seed, tier):
                 new.append(f)
         return new
 
-    n = 800 if tier == "quick" else 5000
+    n = 600 if tier == "quick" else 5000
     found = core.hyp_search(_strategies(), body, seed, n)
     if found:
         res.failures.extend(found)
